@@ -592,6 +592,13 @@ def run(ctx):
             for base in NAME_BASES for kind in ('abs', 'rel')]
     inputs.run_shards(ctx, _guarded(shard_navigate), args, part='navigate-names', rule=rule)
 
+    # queries and fragments that contain the delimiters they may legally contain ("/" and "?") - they must not be taken
+    # for component delimiters - on references of at most one segment
+    args = [{'part': 'navigate-delims', 'base': base, 'kind': kind, 'alphabet': SEGMENTS, 'maxseg': 1,
+             'queries': (None, 'y/z?w'), 'fragments': (None, 's?t/u', '?', '/')}
+            for base in BASES for kind in ('abs', 'rel')]
+    inputs.run_shards(ctx, _guarded(shard_navigate), args, part='navigate-delims', rule=rule)
+
     args = [{'part': 'absolute', 'base': base, 'maxseg': b['absolute_maxseg']} for base in ABS_BASES]
     inputs.run_shards(ctx, _guarded(shard_absolute), args, part='absolute', rule=rule)
 
